@@ -983,4 +983,279 @@ Proof.
   split; [apply RS_enable; exact Hrs3|reflexivity].
 Qed.
 
+(* ================================================================ Part 4 *)
+Notation dsolver := (dsolver L).
+Notation reach := (DynDefs.reach L leqb).
+Notation vreach := (DynFunDefs.vreach L leqb).
+
+Lemma vreach_reach oracle thr k s ps os : vreach oracle thr k s ps os -> reach k s os.
+Proof.
+  induction 1 as [ps0 s ps Hn|s ps os o Hr IH|s ps os fuel q cert l s' a ps' Hr IH Hq].
+  - eapply reach_new. exact Hn.
+  - apply reach_update. exact IH.
+  - eapply reach_query; [exact IH|exact Hq].
+Qed.
+
+(* ---- a SAT call *)
+Lemma se_cl_solved d se a : se_cl (sess_solved d se a) = se_cl se.
+Proof. destruct d; reflexivity. Qed.
+Lemma sbounded_solved d se a : sbounded se -> sbounded (sess_solved d se a).
+Proof. intros H c l Hc Hl. destruct d; cbn in *; specialize (H c l Hc Hl); lia. Qed.
+Lemma nv_solved d se a : nv se <= nv (sess_solved d se a).
+Proof. unfold session_n_vars. destruct d; cbn; lia. Qed.
+
+Lemma solve_Done oracle a ps r ps' :
+  Prog.solve oracle a ps = Done r ps' ->
+  ps' = st_solved oracle ps a /\
+  match answer_of oracle ps a with Sat m => r = Some m | Unsat => r = None | Unknown => False end.
+Proof.
+  unfold Prog.solve, st_solved, answer_of, sess_solved.
+  destruct (oracle (calls ps) (rev (rclauses (sess ps))) a); intros E; try discriminate E;
+    apply Done_inj in E; destruct E as [<- <-]; auto.
+Qed.
+
+(* ---- what a query of the complete / stable solver does (standard encoder) *)
+Definition pushed_state (s : dsolver) (af : fw) (buf : dbuf L) (ev : devent L) : dsolver :=
+  {| s_kind := s_kind L s; s_af := af; s_buf := buf_push L buf ev |}.
+
+Lemma dc_query_inv oracle (s : dsolver) l ps s' ans ps' :
+  dc_query oracle L leqb s l ps = Done (s', ans) ps' ->
+  (exists b ext, is_cred L leqb (s_buf L s) l = (Some b, Some ext) /\ s' = s /\ ans = (b, Some ext) /\ ps' = ps) \/
+  ((forall b ext, is_cred L leqb (s_buf L s) l <> (Some b, Some ext)) /\
+   exists af buf ps1, update_encoding L leqb (s_af L s) (s_buf L s) ps = Done (af, buf) ps1 /\
+   forall e, b_enc L buf = XStd e ->
+     exists id v, get_argument af l = Some id /\ tbl_var (e_a2v e) id = Some v /\
+       ps' = st_solved oracle ps1 (e_assum e ++ [zlit v]) /\
+       match answer_of oracle ps1 (e_assum e ++ [zlit v]) with
+       | Sat m => exists acc, labels_of L af (args_where not_some_false (e_vars e) m) = Some acc /\
+                   s' = pushed_state s af buf (DCred L acc [] (Some (dyn_a2e (e_vars e) m))) /\
+                   ans = (true, Some (dyn_a2e (e_vars e) m))
+       | Unsat => s' = pushed_state s af buf (DCred L [] [l] None) /\ ans = (false, None)
+       | Unknown => False
+       end).
+Proof.
+  unfold dc_query. intros E.
+  assert (G : forall (Hmiss : forall b ext, is_cred L leqb (s_buf L s) l <> (Some b, Some ext)),
+    (r <- update_encoding L leqb (s_af L s) (s_buf L s) ;;
+     (let '(af, buf) := r in
+      let x := b_enc L buf in
+      asm <- x_assumptions L af x ;;
+      v <- x_arg_var L leqb af x l ;;
+      m <- Prog.solve oracle (asm ++ [zlit v]) ;;
+      match m with
+      | Some m =>
+          acc <- opt_m (labels_of L af (args_where not_some_false (x_vars x) m)) ;;
+          (let ext := dyn_a2e (x_vars x) m in
+           ret ({| s_kind := s_kind L s; s_af := af; s_buf := buf_push L buf (DCred L acc [] (Some ext)) |},
+                (true, Some ext)))
+      | None =>
+          ret ({| s_kind := s_kind L s; s_af := af; s_buf := buf_push L buf (DCred L [] [l] None) |}, (false, None))
+      end)) ps = Done (s', ans) ps' ->
+    exists af buf ps1, update_encoding L leqb (s_af L s) (s_buf L s) ps = Done (af, buf) ps1 /\
+    forall e, b_enc L buf = XStd e ->
+     exists id v, get_argument af l = Some id /\ tbl_var (e_a2v e) id = Some v /\
+       ps' = st_solved oracle ps1 (e_assum e ++ [zlit v]) /\
+       match answer_of oracle ps1 (e_assum e ++ [zlit v]) with
+       | Sat m => exists acc, labels_of L af (args_where not_some_false (e_vars e) m) = Some acc /\
+                   s' = pushed_state s af buf (DCred L acc [] (Some (dyn_a2e (e_vars e) m))) /\
+                   ans = (true, Some (dyn_a2e (e_vars e) m))
+       | Unsat => s' = pushed_state s af buf (DCred L [] [l] None) /\ ans = (false, None)
+       | Unknown => False
+       end).
+  { intros _ E'. apply bind_Done in E'. destruct E' as ([af buf] & ps1 & E1 & E2).
+    exists af, buf, ps1. split; [exact E1|]. intros e He. rewrite He in E2. cbn [x_assumptions x_vars] in E2.
+    apply bind_Done in E2. destruct E2 as (asm & ps2 & E2 & E3). apply ret_Done in E2. destruct E2 as [<- <-].
+    apply bind_Done in E3. destruct E3 as (v & ps3 & E3 & E4).
+    unfold x_arg_var in E3. apply bind_Done in E3. destruct E3 as (id & ps4 & E3 & E5).
+    apply opt_m_Done in E3. destruct E3 as [Hid ->]. apply opt_m_Done in E5. destruct E5 as [Hv ->].
+    cbn [x_a2v] in Hv. exists id, v. split; [exact Hid|]. split; [exact Hv|].
+    apply bind_Done in E4. destruct E4 as (m & ps5 & E4 & E5).
+    apply solve_Done in E4. destruct E4 as [-> Ha]. 
+    destruct (answer_of oracle ps1 (e_assum e ++ [zlit v])) as [m0| |]; [| |destruct Ha]; subst m.
+    - apply bind_Done in E5. destruct E5 as (acc & ps6 & E5 & E6). apply opt_m_Done in E5. destruct E5 as [Hacc ->].
+      apply ret_Done in E6. destruct E6 as [E6 <-]. apply pair_equal_spec in E6. destruct E6 as [<- <-].
+      split; [reflexivity|]. exists acc. auto.
+    - apply ret_Done in E5. destruct E5 as [E5 <-]. apply pair_equal_spec in E5. destruct E5 as [<- <-]. auto. }
+  destruct (is_cred L leqb (s_buf L s) l) as [[b|] [ext|]] eqn:Ec.
+  1:{ left. apply ret_Done in E. destruct E as [E <-]. apply pair_equal_spec in E. destruct E as [<- <-].
+      exists b, ext. auto. }
+  all: right; (split; [intros b0 ext0; congruence|]); apply G; [intros b0 ext0; congruence|exact E].
+Qed.
+
+Lemma st_ds_query_inv oracle (s : dsolver) l ps s' ans ps' :
+  st_ds_query oracle L leqb s l ps = Done (s', ans) ps' ->
+  (exists b ext, is_skep L leqb (s_buf L s) l = (Some b, Some ext) /\ s' = s /\ ans = (b, Some ext) /\ ps' = ps) \/
+  ((forall b ext, is_skep L leqb (s_buf L s) l <> (Some b, Some ext)) /\
+   exists af buf ps1, update_encoding L leqb (s_af L s) (s_buf L s) ps = Done (af, buf) ps1 /\
+   forall e, b_enc L buf = XStd e ->
+     exists id v, get_argument af l = Some id /\ tbl_var (e_a2v e) id = Some v /\
+       ps' = st_solved oracle ps1 (e_assum e ++ [znlit v]) /\
+       match answer_of oracle ps1 (e_assum e ++ [znlit v]) with
+       | Sat m => exists refused, labels_of L af (args_where not_some_true (e_vars e) m) = Some refused /\
+                   s' = pushed_state s af buf (DSkep L [] refused (Some (dyn_a2e (e_vars e) m))) /\
+                   ans = (false, Some (dyn_a2e (e_vars e) m))
+       | Unsat => exists refused, s' = pushed_state s af buf (DSkep L [l] refused None) /\ ans = (true, None)
+       | Unknown => False
+       end).
+Proof.
+  unfold st_ds_query. intros E.
+  assert (G : forall (Hmiss : forall b ext, is_skep L leqb (s_buf L s) l <> (Some b, Some ext)),
+    (r <- update_encoding L leqb (s_af L s) (s_buf L s) ;;
+     (let '(af, buf) := r in
+      let x := b_enc L buf in
+      asm <- x_assumptions L af x ;;
+      v <- x_arg_var L leqb af x l ;;
+      m <- Prog.solve oracle (asm ++ [znlit v]) ;;
+      match m with
+      | Some m =>
+          refused <- opt_m (labels_of L af (args_where not_some_true (x_vars x) m)) ;;
+          (let ext := dyn_a2e (x_vars x) m in
+           ret ({| s_kind := s_kind L s; s_af := af; s_buf := buf_push L buf (DSkep L [] refused (Some ext)) |},
+                (false, Some ext)))
+      | None =>
+          id <- opt_m (get_argument af l) ;;
+          refused <- opt_m (labels_of L af (map snd (iter_attacks_from L af id))) ;;
+          ret ({| s_kind := s_kind L s; s_af := af; s_buf := buf_push L buf (DSkep L [l] refused None) |}, (true, None))
+      end)) ps = Done (s', ans) ps' ->
+    exists af buf ps1, update_encoding L leqb (s_af L s) (s_buf L s) ps = Done (af, buf) ps1 /\
+    forall e, b_enc L buf = XStd e ->
+     exists id v, get_argument af l = Some id /\ tbl_var (e_a2v e) id = Some v /\
+       ps' = st_solved oracle ps1 (e_assum e ++ [znlit v]) /\
+       match answer_of oracle ps1 (e_assum e ++ [znlit v]) with
+       | Sat m => exists refused, labels_of L af (args_where not_some_true (e_vars e) m) = Some refused /\
+                   s' = pushed_state s af buf (DSkep L [] refused (Some (dyn_a2e (e_vars e) m))) /\
+                   ans = (false, Some (dyn_a2e (e_vars e) m))
+       | Unsat => exists refused, s' = pushed_state s af buf (DSkep L [l] refused None) /\ ans = (true, None)
+       | Unknown => False
+       end).
+  { intros _ E'. apply bind_Done in E'. destruct E' as ([af buf] & ps1 & E1 & E2).
+    exists af, buf, ps1. split; [exact E1|]. intros e He. rewrite He in E2. cbn [x_assumptions x_vars] in E2.
+    apply bind_Done in E2. destruct E2 as (asm & ps2 & E2 & E3). apply ret_Done in E2. destruct E2 as [<- <-].
+    apply bind_Done in E3. destruct E3 as (v & ps3 & E3 & E4).
+    unfold x_arg_var in E3. apply bind_Done in E3. destruct E3 as (id & ps4 & E3 & E5).
+    apply opt_m_Done in E3. destruct E3 as [Hid ->]. apply opt_m_Done in E5. destruct E5 as [Hv ->].
+    cbn [x_a2v] in Hv. exists id, v. split; [exact Hid|]. split; [exact Hv|].
+    apply bind_Done in E4. destruct E4 as (m & ps5 & E4 & E5).
+    apply solve_Done in E4. destruct E4 as [-> Ha].
+    destruct (answer_of oracle ps1 (e_assum e ++ [znlit v])) as [m0| |]; [| |destruct Ha]; subst m.
+    - apply bind_Done in E5. destruct E5 as (acc & ps6 & E5 & E6). apply opt_m_Done in E5. destruct E5 as [Hacc ->].
+      apply ret_Done in E6. destruct E6 as [E6 <-]. apply pair_equal_spec in E6. destruct E6 as [<- <-].
+      split; [reflexivity|]. exists acc. auto.
+    - apply bind_Done in E5. destruct E5 as (id' & ps6 & E5 & E6). apply opt_m_Done in E5. destruct E5 as [_ ->].
+      apply bind_Done in E6. destruct E6 as (refused & ps7 & E6 & E7). apply opt_m_Done in E6. destruct E6 as [_ ->].
+      apply ret_Done in E7. destruct E7 as [E7 <-]. apply pair_equal_spec in E7. destruct E7 as [<- <-].
+      split; [reflexivity|]. exists refused. auto. }
+  destruct (is_skep L leqb (s_buf L s) l) as [[b|] [ext|]] eqn:Ec.
+  1:{ left. apply ret_Done in E. destruct E as [E <-]. apply pair_equal_spec in E. destruct E as [<- <-].
+      exists b, ext. auto. }
+  all: right; (split; [intros b0 ext0; congruence|]); apply G; [intros b0 ext0; congruence|exact E].
+Qed.
+
+Lemma dyn_query_std_inv oracle thr fuel (s : dsolver) q cert l ps s' a ps' :
+  s_kind L s = KCo \/ s_kind L s = KSt ->
+  dyn_query oracle L leqb thr fuel s q cert l ps = Done (s', a) ps' ->
+  exists ans, a = (if cert then ans else (fst ans, None)) /\
+    ((q = QDC /\ dc_query oracle L leqb s l ps = Done (s', ans) ps') \/
+     (s_kind L s = KSt /\ q = QDS /\ st_ds_query oracle L leqb s l ps = Done (s', ans) ps')).
+Proof.
+  intros Hk E. unfold dyn_query in E.
+  destruct Hk as [Hk|Hk]; rewrite Hk in E; destruct q; try discriminate E;
+    apply bind_Done in E; destruct E as ([s1 ans] & ps1 & E1 & E2);
+    apply ret_Done in E2; destruct E2 as [E2 <-]; cbn [fst snd] in E2;
+    apply pair_equal_spec in E2; destruct E2 as [<- <-]; exists ans; (split; [reflexivity|]); auto.
+Qed.
+
+(* ---- the invariant of reachable states *)
+Definition VI (s : dsolver) (ps : Prog.st) : Prop :=
+  forall e, b_enc L (s_buf L s) = XStd e ->
+    sbounded (sess ps) /\ exists dv atk, cinv (s_af L s) e [] (se_cl (sess ps)) (nv (sess ps)) dv atk.
+
+Lemma reach_RS k (s : dsolver) os ps e :
+  reach k s os -> std_kind k -> b_enc L (s_buf L s) = XStd e -> VI s ps ->
+  RS (s_af L s) e [] (sess ps) /\ e_upd e = false.
+Proof.
+  intros Hr Hk He Hvi. assert (Hnd : not_dummy k) by (destruct Hk as [-> |[-> | ->]]; exact I).
+  destruct (std_tables_reach L leqb k s os e Hr He Hnd) as [Ht Hu].
+  pose proof (vz_reach L leqb k s os Hr) as Hz. unfold vz_buf in Hz. rewrite He in Hz.
+  destruct (rep_reach L leqb leqb_spec k s os Hr Hk) as [Hinv _].
+  destruct (Hvi e He) as [Hbd Hc]. split; [|exact Hu].
+  split; auto. apply tables_ok_split. exact Ht.
+Qed.
+
+(* the state after a query that was not served from the cache *)
+Lemma pushed_VI oracle (s : dsolver) af buf ev e ps1 a :
+  b_enc L buf = XStd e -> RS af e [] (sess ps1) -> VI (pushed_state s af buf ev) (st_solved oracle ps1 a).
+Proof.
+  intros He [Ht Hinv Hz Hbd (dv & atk & Hc)] e' He'. cbn [pushed_state s_buf s_af buf_push buf_with b_enc] in *.
+  assert (e' = e) by congruence. subst e'.
+  unfold st_solved, log_ev. cbn [sess]. split; [apply sbounded_solved, Hbd|].
+  exists dv, atk. rewrite se_cl_solved. eapply cinv_mono; [exact Hc|apply incl_refl|apply nv_solved].
+Qed.
+
+Theorem vreach_VI oracle thr k s ps os :
+  vreach oracle thr k s ps os -> k = KCo \/ k = KSt -> VI s ps.
+Proof.
+  intros Hv Hk. assert (Hsk : std_kind k) by (unfold std_kind; tauto).
+  induction Hv as [ps0 s ps Hn|s ps os o Hr IH|s ps os fuel q cert l s' a ps' Hr IH Hq].
+  - (* a fresh solver: empty session, empty tables *)
+    assert (G : forall sm ps1, VI {| s_kind := k; s_af := empty_fw L leqb;
+                  s_buf := {| b_buffer := []; b_next := 0; b_enc := XStd (enc_enable (enc_new sm) false);
+                              b_shadow := empty_fw L leqb |} |} (st_new ps1)).
+    { intros sm ps1 e He. cbn [s_buf b_enc s_af] in *. injection He as <-.
+      assert (T : forall id, tbl_var [] id = None) by (intros [|id]; reflexivity).
+      split; [intros c l0 []|]. exists (fun _ => None), (fun _ => []).
+      split; cbn [enc_enable enc_new e_a2v e_a2s e_sem st_new sess se_cl empty_session rclauses rev].
+      - intros x Hx. congruence.
+      - reflexivity.
+      - intros a Ha. exfalso. unfold has_argument_with_id, ls_has_id, empty_fw, fw_new_with_labels, fw_new in Ha.
+        cbn in Ha. destruct a; discriminate Ha.
+      - intros a Ha. rewrite T in Ha. congruence.
+      - intros a Ha. rewrite T in Ha. congruence.
+      - intros _ a v Hv. rewrite T in Hv. discriminate.
+      - intros c []. }
+    unfold dyn_new in Hn. destruct Hk as [-> | ->];
+      apply bind_Done in Hn; destruct Hn as (u & ps1 & Hn1 & Hn2);
+      apply ret_Done in Hn2; destruct Hn2 as [<- <-];
+      unfold new_solver in Hn1; apply Done_inj in Hn1; destruct Hn1 as [_ <-]; apply G.
+  - (* an update only buffers an event *)
+    pose proof (vreach_reach _ _ _ _ _ _ Hr) as Hr'.
+    pose proof (reach_frame_inv L leqb _ _ _ Hr') as [Hkind _ _ _].
+    assert (Hnd : not_dummy (s_kind L s)) by (rewrite Hkind; destruct Hk as [-> | ->]; exact I).
+    destruct (update_touches_no_encoder L leqb s o Hnd) as (Haf & Hen & _).
+    intros e He. rewrite Haf. apply IH. rewrite <- Hen. exact He.
+  - pose proof (vreach_reach _ _ _ _ _ _ Hr) as Hr'.
+    pose proof (reach_frame_inv L leqb _ _ _ Hr') as [Hkind _ _ _].
+    pose proof (std_kind_reach L leqb _ _ _ Hr' Hsk) as Hstd.
+    destruct (b_enc L (s_buf L s)) as [e0|e0] eqn:Ee0; [|destruct Hstd].
+    destruct (reach_RS k s os ps e0 Hr' Hsk Ee0 IH) as [Hrs Hu].
+    destruct (dyn_query_std_inv oracle thr fuel s q cert l ps s' a ps' (ltac:(rewrite Hkind; exact Hk)) Hq)
+      as (ans & _ & [[_ Hdc]|[_ [_ Hds]]]).
+    + destruct (dc_query_inv oracle s l ps s' ans ps' Hdc) as
+        [(b & ext & _ & -> & _ & ->)|(_ & af & buf & ps1 & Hue & Hrest)]; [exact IH|].
+      destruct (update_encoding_RS _ _ _ _ _ _ _ Ee0 Hrs Hu Hue) as (e' & He' & Hrs' & Hu').
+      destruct (Hrest e' He') as (id & v & _ & _ & -> & Hans).
+      destruct (answer_of oracle ps1 (e_assum e' ++ [zlit v])) as [m| |]; [| |destruct Hans].
+      * destruct Hans as (acc & _ & -> & _). eapply pushed_VI; eassumption.
+      * destruct Hans as (-> & _). eapply pushed_VI; eassumption.
+    + destruct (st_ds_query_inv oracle s l ps s' ans ps' Hds) as
+        [(b & ext & _ & -> & _ & ->)|(_ & af & buf & ps1 & Hue & Hrest)]; [exact IH|].
+      destruct (update_encoding_RS _ _ _ _ _ _ _ Ee0 Hrs Hu Hue) as (e' & He' & Hrs' & Hu').
+      destruct (Hrest e' He') as (id & v & _ & _ & -> & Hans).
+      destruct (answer_of oracle ps1 (e_assum e' ++ [znlit v])) as [m| |]; [| |destruct Hans].
+      * destruct Hans as (refused & _ & -> & _). eapply pushed_VI; eassumption.
+      * destruct Hans as (refused & -> & _). eapply pushed_VI; eassumption.
+Qed.
+
+(* THE CLAUSE-SET INVARIANT over histories (complete and stable dynamic solvers, standard encoder) *)
+Theorem clause_set_invariant oracle thr k s ps os e :
+  vreach oracle thr k s ps os -> k = KCo \/ k = KSt -> b_enc L (s_buf L s) = XStd e ->
+  clause_inv L (s_af L s) e (cls ps) (session_n_vars (sess ps)).
+Proof.
+  intros Hv Hk He. destruct (vreach_VI _ _ _ _ _ _ Hv Hk e He) as [_ (dv & atk & Hc)].
+  assert (Hsk : std_kind k) by (unfold std_kind; tauto).
+  assert (Hnd : not_dummy k) by (destruct Hk as [-> | ->]; exact I).
+  destruct (std_tables_reach L leqb k s os e (vreach_reach _ _ _ _ _ _ Hv) He Hnd) as [Ht _].
+  exact (cinv_clause_inv _ _ _ _ _ _ Hc Ht).
+Qed.
+
 End DynInv.
